@@ -78,6 +78,107 @@ class GcModel:
         self.ctx_def = "context::Context"
         a = prog.all_adts[self.ctx_def]
         self.ctx_fields = [f["name"] for f in a["variants"][0]["fields"]]
+        self._resolve_roles(a)
+
+    # ------------------------------------------------------------------ which field of Context plays which role
+    ROLES = ("metrics", "phase", "all", "sweep", "sweep_prev", "root_needs_trace", "gray", "gray_again")
+
+    def _resolve_roles(self, a):
+        """The model speaks of eight roles of the collector context. A role is the field of that name when there is
+        one; otherwise it is found by type where the type identifies it (a private field may be renamed, and the
+        root flag may be a two-variant enum instead of a bool, without any behaviour changing). The polarity of an
+        enum-typed root flag is read off the code: the value under which mark_one traces the root."""
+        prog = self.prog
+        fields = a["variants"][0]["fields"]
+        role = {n: n for n in self.ROLES if n in self.ctx_fields}
+        taken = set(role.values())
+
+        def tys(f):
+            return prog.ty(f["ty"]) if "ty" in f else {}
+
+        def inner(t, wrapper):
+            if t.get("k") == "adt" and t.get("def") == wrapper and t.get("args"):
+                x = t["args"][0].get("ty")
+                return prog.ty(x) if x is not None else {}
+            return None
+
+        def is_opt_gcptr(t):
+            i = inner(t, OPT)
+            return i is not None and i.get("def") == "gc_ptr::GcPtr"
+
+        def two_variant_enum(t):
+            if t.get("k") != "adt" or not t.get("local"):
+                return False
+            e = prog.all_adts.get(t["def"])
+            return bool(e and e["kind"] == "enum" and len(e["variants"]) == 2 and not any(v["fields"] for v in e["variants"]))
+
+        cands = {
+            "metrics": [f["name"] for f in fields if tys(f).get("def") == "metrics::Metrics"],
+            "phase": [f["name"] for f in fields if tys(f).get("def") == "context::Phase"],
+            "sweep": [f["name"] for f in fields if is_opt_gcptr(tys(f))],
+            "root_needs_trace": [f["name"] for f in fields if tys(f).get("k") == "bool" or two_variant_enum(tys(f))],
+        }
+        for r, names in cands.items():
+            if r not in role:
+                names = [n for n in names if n not in taken]
+                if len(names) == 1:
+                    role[r] = names[0]
+                    taken.add(names[0])
+        # the two queues and the two list cells have one type each: by declaration order when exactly two remain
+        cells = [f["name"] for f in fields if f["name"] not in taken and (inner(tys(f), "core::cell::Cell") or {}).get("def") == OPT]
+        if "all" not in role and "sweep_prev" not in role and len(cells) == 2:
+            role["all"], role["sweep_prev"] = cells
+        queues = [f["name"] for f in fields if f["name"] not in taken and tys(f).get("k") == "adt" and tys(f).get("local")
+                  and tys(f).get("def") not in ("metrics::Metrics", "context::Phase") and not two_variant_enum(tys(f))]
+        if "gray" not in role and "gray_again" not in role and len(queues) == 2:
+            role["gray"], role["gray_again"] = queues
+        self.role = role
+        self.missing_roles = [r for r in self.ROLES if r not in role]
+        self.queue_def = None
+        if "gray" in role:
+            self.queue_def = tys(fields[self.ctx_fields.index(role["gray"])]).get("def")
+        # encoding of the root flag
+        self.flag_enum = None
+        self._flag_true_variant = None
+        if "root_needs_trace" in role:
+            t = tys(fields[self.ctx_fields.index(role["root_needs_trace"])])
+            if t.get("k") != "bool":
+                self.flag_enum = t["def"]
+
+    def flag_value(self, b):
+        if self.flag_enum is None:
+            return I.I(1 if b else 0)
+        tv = self._flag_polarity()
+        return adt(self.flag_enum, tv if b else 1 - tv, ())
+
+    def flag_decode(self, v):
+        if self.flag_enum is None:
+            return v[1] if v[0] == "i" else "?"
+        if v[0] == "adt" and v[1] == self.flag_enum:
+            return 1 if v[2] == self._flag_polarity() else 0
+        return "?"
+
+    def _flag_polarity(self):
+        """Variant index of the enum-typed root flag that means `the root still has to be traced`: the one under
+        which mark_one, with both queues empty, calls the root's trace."""
+        if self._flag_true_variant is not None:
+            return self._flag_true_variant
+        hits = []
+        for vi in (0, 1):
+            self._flag_true_variant = vi          # provisional, so that mk_state can encode
+            st = self.mk_state(phase="Mark", root_needs_trace=True)
+            try:
+                outs = self.ip.run(self.key_of("context::Context::mark_one"), [self.ctx_ref(), ("sym", "root")], st)
+            except (I.Unmodelled, I.InterpError, KeyError):
+                outs = []
+            if any(e[0] == "user_trace" for o in outs for e in o.ev):
+                hits.append(vi)
+        if len(hits) != 1:
+            self._flag_true_variant = None
+            raise I.InterpError("cannot tell which value of the root flag `%s` means that the root needs tracing "
+                                "(mark_one traces the root under %d of its 2 values)" % (self.role["root_needs_trace"], len(hits)))
+        self._flag_true_variant = hits[0]
+        return hits[0]
 
     # ------------------------------------------------------------------ state construction
     def color(self, c):
@@ -95,13 +196,16 @@ class GcModel:
             "all": some(obj(all_)) if all_ is not None else none(),
             "sweep": some(obj(sweep)) if sweep is not None else none(),
             "sweep_prev": some(obj(sweep_prev)) if sweep_prev is not None else none(),
-            "root_needs_trace": I.I(1 if root_needs_trace else 0),
-            "gray": adt("context::Queue", 0, (("vec", tuple(obj(i) for i in gray)),)),
-            "gray_again": adt("context::Queue", 0, (("vec", tuple(obj(i) for i in gray_again)),)),
+            "root_needs_trace": self.flag_value(root_needs_trace),
+            "gray": adt(self.queue_def or "context::Queue", 0, (("vec", tuple(obj(i) for i in gray)),)),
+            "gray_again": adt(self.queue_def or "context::Queue", 0, (("vec", tuple(obj(i) for i in gray_again)),)),
         }
+        if self.missing_roles:
+            raise I.InterpError("Context has no field for the role(s) %s" % self.missing_roles)
+        by_field = {self.role[r]: v for r, v in vals.items()}
         fields = []
         for n in self.ctx_fields:
-            fields.append(vals.get(n, TOP))
+            fields.append(by_field.get(n, TOP))
         st.mem[("ctx",)] = adt(self.ctx_def, 0, fields)
         for i, o in (objs or {}).items():
             d = {"colour": "W", "live": 1, "nt": 1, "next": None, "dropped": 0, "freed": 0}
@@ -112,9 +216,12 @@ class GcModel:
     def ctx_ref(self):
         return ref(("ctx",), ())
 
+    def ctx_index(self, name):
+        return self.ctx_fields.index(self.role.get(name, name))
+
     def ctx_get(self, st, name):
         v = st.mem[("ctx",)]
-        return v[3][self.ctx_fields.index(name)]
+        return v[3][self.ctx_index(name)]
 
     def snapshot(self, st):
         """Abstract post-state of the collector (for tables)."""
@@ -127,7 +234,7 @@ class GcModel:
         rn = self.ctx_get(st, "root_needs_trace")
         return {
             "phase": phase_name(self.prog, ph),
-            "root_needs_trace": rn[1] if rn[0] == "i" else "?",
+            "root_needs_trace": self.flag_decode(rn),
             "gray": q(self.ctx_get(st, "gray")),
             "gray_again": q(self.ctx_get(st, "gray_again")),
             "all": optobj(self.ctx_get(st, "all")),
@@ -300,6 +407,9 @@ class GcModel:
 
         def cell_store(name):
             def h(ip, st, args, info):
+                if name.startswith("RefCell::") and args and args[0][0] == "ref" and args[0][1] in st.mem:
+                    # a RefCell in the collector's own modelled memory (not inside an allocated value)
+                    return (I.p_refcell_try_borrow if "try" in name else I.p_refcell_borrow)(ip, st, args, info)
                 st.event("cell_store", name)
                 return [(st, "ret", TOP)]
             return h
